@@ -23,57 +23,12 @@
   Not proved here: that the non-NaN cells are the storage values of that key (checked by the correspondence and the
   direct oracle `table-value` only).
 -/
-import SH.Model.Table
+import SH.Lemmas.TableCells
 
 namespace SH.C25
 open SH.Table
 
 /-! ## limitQueries: the window and the limit are respected, has-more is exact -/
-
-theorem scanRows_fixed (w : Win) : ∀ (g : List Row) (n : Nat),
-    scanRows .fixed w n g =
-      ((g.filter (inRange w)).take n, decide (n < (g.filter (inRange w)).length), n - (g.filter (inRange w)).length) := by
-  intro g
-  induction g with
-  | nil => intro n; simp [scanRows]
-  | cons r rs ih =>
-    intro n
-    by_cases h : inRange w r = true
-    · cases n with
-      | zero => simp [scanRows, limitFirst, h]
-      | succ m =>
-        simp only [scanRows, limitFirst, h, List.filter_cons]
-        simp [ih m]
-    · simp only [Bool.not_eq_true] at h
-      simp [scanRows, limitFirst, h, ih n]
-
-theorem scanGroups_fixed (w : Win) : ∀ (gs : List (List Row)) (n : Nat),
-    scanGroups .fixed w n gs =
-      ((gs.flatten.filter (inRange w)).take n, decide (n < (gs.flatten.filter (inRange w)).length)) := by
-  intro gs
-  induction gs with
-  | nil => intro n; simp [scanGroups]
-  | cons g gs ih =>
-    intro n
-    simp only [scanGroups, skipsGroups, Bool.false_and, scanRows_fixed, ih, List.flatten_cons, List.filter_append,
-      List.length_append]
-    by_cases h : n < (g.filter (inRange w)).length
-    · simp [h, List.take_append_of_le_length (Nat.le_of_lt h)]
-      omega
-    · simp [h]
-      have h' : (g.filter (inRange w)).length ≤ n := Nat.le_of_not_lt h
-      rw [List.take_append]
-      simp [List.take_of_length_le h']
-      omega
-
-/-- the rows of one storage answer that lie in the requested window, in visiting order -/
-def windowRows (w : Win) (groups : List (List Row)) : List Row := (dir w.fromEnd groups).flatten.filter (inRange w)
-
-theorem limitQueries_fixed (w : Win) (groups : List (List Row)) (limit : Int) :
-    limitQueries .fixed w groups limit =
-      ((windowRows w groups).take limit.toNat, decide (limit.toNat < (windowRows w groups).length)) := by
-  simp [limitQueries, scanGroups_fixed, windowRows]
-
 
 /-- **window_respected / has_more_iff (one storage answer).** For every window, every storage answer and every limit
     the fixed limitQueries returns exactly the first `limit` rows of the window in visiting order, and reports
@@ -106,592 +61,6 @@ example : ¬ ((limitQueries .old wMid [[rowT 10 1, rowT 10 5, rowT 10 9]] 10).1
             = (windowRows wMid [[rowT 10 1, rowT 10 5, rowT 10 9]]).take (10 : Int).toNat) := by decide
 example : ¬ ((limitQueries .old wTo [[rowT 10 3, rowT 10 7]] 1).2 = true ↔
             (1 : Int).toNat < (windowRows wTo [[rowT 10 3, rowT 10 7]]).length) := by decide
-
-/-! ## every variant: limitQueries only returns rows of the answer that lie in the window -/
-
-theorem scanRows_mem (v : Variant) (w : Win) : ∀ (g : List Row) (n : Nat) (r : Row),
-    r ∈ (scanRows v w n g).1 → r ∈ g ∧ inRange w r = true := by
-  intro g
-  induction g with
-  | nil => intro n r h; simp [scanRows] at h
-  | cons x xs ih =>
-    intro n r h
-    simp only [scanRows] at h
-    by_cases hl : limitFirst v = true <;> by_cases hn : n = 0 <;> by_cases hx : inRange w x = true <;>
-      simp [hl, hn, hx] at h
-    all_goals first
-      | (rcases h with h | h
-         · subst h; exact ⟨by simp, hx⟩
-         · have := ih _ _ h; exact ⟨by simp [this.1], this.2⟩)
-      | (have := ih _ _ h; exact ⟨by simp [this.1], this.2⟩)
-
-theorem scanGroups_mem (v : Variant) (w : Win) : ∀ (gs : List (List Row)) (n : Nat) (r : Row),
-    r ∈ (scanGroups v w n gs).1 → (∃ g ∈ gs, r ∈ g) ∧ inRange w r = true := by
-  intro gs
-  induction gs with
-  | nil => intro n r h; simp [scanGroups] at h
-  | cons g gs ih =>
-    intro n r h
-    simp only [scanGroups] at h
-    split at h
-    · have := ih _ _ h
-      obtain ⟨⟨g', hg', hr⟩, hin⟩ := this
-      exact ⟨⟨g', by simp [hg'], hr⟩, hin⟩
-    · split at h
-      · have := scanRows_mem v w g n r h
-        exact ⟨⟨g, by simp, this.1⟩, this.2⟩
-      · simp only [List.mem_append] at h
-        rcases h with h | h
-        · have := scanRows_mem v w g n r h
-          exact ⟨⟨g, by simp, this.1⟩, this.2⟩
-        · obtain ⟨⟨g', hg', hr⟩, hin⟩ := ih _ _ h
-          exact ⟨⟨g', by simp [hg'], hr⟩, hin⟩
-
-theorem mem_dir {α} (fe : Bool) (l : List α) (x : α) : x ∈ dir fe l ↔ x ∈ l := by
-  unfold dir; split <;> simp
-
-theorem limitQueries_mem (v : Variant) (w : Win) (groups : List (List Row)) (limit : Int) (r : Row)
-    (h : r ∈ (limitQueries v w groups limit).1) : (∃ g ∈ groups, r ∈ g) ∧ inRange w r = true := by
-  unfold limitQueries at h
-  cases v with
-  | fixed =>
-    obtain ⟨⟨g, hg, hr⟩, hin⟩ := scanGroups_mem _ _ _ _ _ h
-    exact ⟨⟨g, (mem_dir _ _ _).1 hg, hr⟩, hin⟩
-  | old =>
-    simp only at h
-    split at h
-    · simp at h
-    · obtain ⟨⟨g, hg, hr⟩, hin⟩ := scanGroups_mem _ _ _ _ _ h
-      exact ⟨⟨g, (mem_dir _ _ _).1 hg, hr⟩, hin⟩
-
-
-/-! ## getTableFromLODs: invariants of the key list -/
-
-def keysOf (out : List ORow) : List Key := out.map (·.key)
-
-theorem hasKey_iff (out : List ORow) (k : Key) : hasKey out k = true ↔ k ∈ keysOf out := by
-  simp [hasKey, keysOf, List.any_eq_true]
-
-theorem keys_addRow (pad : Nat) (cols : List Nat) (out : List ORow) (r : Row) :
-    keysOf (addRow pad cols out r) = if hasKey out r.key then keysOf out else keysOf out ++ [r.key] := by
-  unfold addRow
-  split
-  · simp only [keysOf, List.map_map]
-    apply List.map_congr_left
-    intro o _
-    simp only [Function.comp]
-    split <;> rfl
-  · simp [keysOf]
-
-theorem keys_endPass (v : Variant) (cols : List Nat) (out : List ORow) : keysOf (endPass v cols out) = keysOf out := by
-  simp only [keysOf, endPass, List.map_map]
-  apply List.map_congr_left
-  intro o _
-  simp only [Function.comp]
-  split <;> rfl
-
-/-- an invariant of the key list that every accepted storage row preserves is an invariant of the LOD loop -/
-theorem lodLoop_keys (P : List Key → Prop) (v : Variant) (q : Req) (pad : Nat) (cols : List Nat)
-    (hadd : ∀ ks (r : Row), P ks → inRange q.win r = true → timeSkipped q r = false → r.key ∉ ks → P (ks ++ [r.key])) :
-    ∀ (answers : List (Lod × Option (List (List Row)))) (cnt : Nat) (out : List ORow) (res : List ORow × Bool),
-      P (keysOf out) → lodLoop v q pad cols answers cnt out = some res → P (keysOf res.1) := by
-  have hfold : ∀ (rows : List Row) (out : List ORow), (∀ r ∈ rows, inRange q.win r = true ∧ timeSkipped q r = false) →
-      P (keysOf out) → P (keysOf (rows.foldl (addRow pad cols) out)) := by
-    intro rows
-    induction rows with
-    | nil => intro out _ h; simpa using h
-    | cons r rs ih =>
-      intro out hr h
-      simp only [List.foldl_cons]
-      apply ih
-      · intro x hx; exact hr x (by simp [hx])
-      · rw [keys_addRow]
-        split
-        · exact h
-        · rename_i hk
-          have := hr r (by simp)
-          exact hadd _ _ h this.1 this.2 (by rw [← hasKey_iff]; simpa using hk)
-  intro answers
-  induction answers with
-  | nil => intro cnt out res h he; simp [lodLoop] at he; subst he; exact h
-  | cons a rest ih =>
-    intro cnt out res h he
-    obtain ⟨l, ans⟩ := a
-    simp only [lodLoop] at he
-    split at he
-    · exact ih _ _ _ h he
-    · cases ans with
-      | none => simp at he
-      | some groups =>
-        simp only at he
-        have hrows : ∀ r ∈ List.filter (fun r => !timeSkipped q r) (limitQueries v q.win groups (q.limit - ↑cnt)).1,
-            inRange q.win r = true ∧ timeSkipped q r = false := by
-          intro r hr
-          simp only [List.mem_filter, Bool.not_eq_true'] at hr
-          exact ⟨((limitQueries_mem v q.win groups _ r hr.1).2), hr.2⟩
-        split at he
-        · simp at he; subst he; exact hfold _ _ hrows h
-        · exact ih _ _ _ (hfold _ _ hrows h) he
-
-theorem whatLoop_keys (P : List Key → Prop) (v : Variant) (q : Req)
-    (hadd : ∀ ks (r : Row), P ks → inRange q.win r = true → timeSkipped q r = false → r.key ∉ ks → P (ks ++ [r.key])) :
-    ∀ (todo : List (List Nat × List (Lod × Option (List (List Row))))) (prev : List (List Nat)) (out : List ORow) (more : Bool)
-      (res : List ORow × Bool), P (keysOf out) → whatLoop v q prev todo out more = some res → P (keysOf res.1) := by
-  intro todo
-  induction todo with
-  | nil => intro prev out more res h he; simp [whatLoop] at he; subst he; exact h
-  | cons t rest ih =>
-    intro prev out more res h he
-    obtain ⟨cols, answers⟩ := t
-    simp only [whatLoop] at he
-    split at he
-    · simp at he
-    · rename_i r hr
-      apply ih _ _ _ _ _ he
-      rw [keys_endPass]
-      exact lodLoop_keys P v q _ cols hadd answers 0 out r h hr
-
-theorem insertRow_perm (q : Req) (x : ORow) : ∀ l : List ORow, (insertRow q x l).Perm (x :: l) := by
-  intro l
-  induction l with
-  | nil => simp [insertRow]
-  | cons y ys ih =>
-    simp only [insertRow]
-    split
-    · exact List.Perm.refl _
-    · exact (List.Perm.cons y ih).trans (List.Perm.swap x y ys)
-
-theorem sortRows_perm (q : Req) : ∀ l : List ORow, (sortRows q l).Perm l := by
-  intro l
-  induction l with
-  | nil => simp [sortRows]
-  | cons x xs ih =>
-    simp only [sortRows]
-    exact (insertRow_perm q x _).trans (List.Perm.cons x ih)
-
-theorem lessThan_time_ne (l : Marker) (k : Key) (orEq fe : Bool) (h : l.time ≠ k.time) :
-    lessThan l k orEq fe = if fe then decide (l.time > k.time) else decide (l.time < k.time) := by
-  simp [lessThan, h]
-
-theorem afterFrom_time (w : Win) (k : Key) (h : afterFrom w k = true) :
-    w.frm.time = 0 ∨ (if w.fromEnd then k.time ≤ w.frm.time else w.frm.time ≤ k.time) := by
-  simp only [afterFrom, Bool.or_eq_true, beq_iff_eq] at h
-  rcases h with h | h
-  · exact Or.inl h
-  · right
-    by_cases e : w.frm.time = k.time
-    · cases w.fromEnd <;> simp <;> omega
-    · rw [lessThan_time_ne _ _ _ _ e] at h
-      cases hf : w.fromEnd <;> simp [hf] at h ⊢ <;> omega
-
-theorem beforeTo_time (w : Win) (k : Key) (h : beforeTo w k = true) :
-    w.to.time = 0 ∨ (if w.fromEnd then w.to.time ≤ k.time else k.time ≤ w.to.time) := by
-  simp only [beforeTo, Bool.or_eq_true, beq_iff_eq, Bool.not_eq_true'] at h
-  rcases h with h | h
-  · exact Or.inl h
-  · right
-    by_cases e : w.to.time = k.time
-    · cases w.fromEnd <;> simp <;> omega
-    · rw [lessThan_time_ne _ _ _ _ e] at h
-      cases hf : w.fromEnd <;> simp [hf] at h ⊢ <;> omega
-
-/-- the time test of the row loop never rejects a row that limitQueries accepted (row times are not negative) -/
-theorem inRange_not_timeSkipped (q : Req) (r : Row) (h : inRange q.win r = true) (ht : 0 ≤ r.key.time) :
-    timeSkipped q r = false := by
-  simp only [inRange, Bool.and_eq_true] at h
-  have h1 := afterFrom_time _ _ h.1
-  have h2 := beforeTo_time _ _ h.2
-  simp only [timeSkipped, aboveTo, fromTime, toTime]
-  by_cases hf : q.win.fromEnd = true
-  · simp [hf] at h1 h2 ⊢; omega
-  · simp [hf] at h1 h2 ⊢; omega
-
-
-/-! ## order lemmas for queryTableRows.Less -/
-
-/-- tags-then-skey part of `less` -/
-def tl (l1 : List Int) (s1 : Nat) (l2 : List Int) (s2 : Nat) : Bool :=
-  match tagsLess l1 l2 with
-  | some x => x
-  | none => decide (s1 < s2)
-
-theorem tl_nil (s1 s2 : Nat) : tl [] s1 [] s2 = true ↔ s1 < s2 := by simp [tl, tagsLess]
-
-theorem tl_cons (x y : Int) (l1 l2 : List Int) (s1 s2 : Nat) :
-    tl (x :: l1) s1 (y :: l2) s2 = true ↔ x < y ∨ (x = y ∧ tl l1 s1 l2 s2 = true) := by
-  simp only [tl, tagsLess]
-  by_cases h : x = y
-  · subst h; simp
-  · simp [h]
-
-theorem tl_asymm : ∀ (l1 l2 : List Int) (s1 s2 : Nat), l1.length = l2.length →
-    tl l1 s1 l2 s2 = true → ¬ tl l2 s2 l1 s1 = true := by
-  intro l1
-  induction l1 with
-  | nil =>
-    intro l2 s1 s2 hl h
-    cases l2 with
-    | nil => simp only [tl_nil] at *; omega
-    | cons => simp at hl
-  | cons x l1 ih =>
-    intro l2 s1 s2 hl h
-    cases l2 with
-    | nil => simp at hl
-    | cons y l2 =>
-      simp only [tl_cons] at *
-      have hl' : l1.length = l2.length := by simpa using hl
-      rcases h with h | ⟨h1, h2⟩
-      · rintro (g | ⟨g1, _⟩) <;> omega
-      · rintro (g | ⟨_, g2⟩)
-        · omega
-        · exact ih _ _ _ hl' h2 g2
-
-theorem tl_negtrans : ∀ (l1 l2 l3 : List Int) (s1 s2 s3 : Nat), l1.length = l2.length → l2.length = l3.length →
-    tl l1 s1 l3 s3 = true → tl l1 s1 l2 s2 = true ∨ tl l2 s2 l3 s3 = true := by
-  intro l1
-  induction l1 with
-  | nil =>
-    intro l2 l3 s1 s2 s3 h12 h23 h
-    cases l2 with
-    | nil =>
-      cases l3 with
-      | nil => simp only [tl_nil] at *; omega
-      | cons => simp at h23
-    | cons => simp at h12
-  | cons x l1 ih =>
-    intro l2 l3 s1 s2 s3 h12 h23 h
-    cases l2 with
-    | nil => simp at h12
-    | cons y l2 =>
-      cases l3 with
-      | nil => simp at h23
-      | cons z l3 =>
-        simp only [tl_cons] at *
-        have h12' : l1.length = l2.length := by simpa using h12
-        have h23' : l2.length = l3.length := by simpa using h23
-        rcases h with h | ⟨h1, h2⟩
-        · by_cases hxy : x < y
-          · exact Or.inl (Or.inl hxy)
-          · by_cases hyz : y < z
-            · exact Or.inr (Or.inl hyz)
-            · omega
-        · by_cases hxy : x < y
-          · exact Or.inl (Or.inl hxy)
-          · by_cases hyx : y < x
-            · exact Or.inr (Or.inl (by omega))
-            · have e : x = y := by omega
-              rcases ih l2 l3 s1 s2 s3 h12' h23' h2 with g | g
-              · exact Or.inl (Or.inr ⟨e, g⟩)
-              · exact Or.inr (Or.inr ⟨by omega, g⟩)
-
-theorem less_iff (a b : RowRepr) : less a b = true ↔
-    (a.time < b.time ∨ (a.time = b.time ∧ (a.tags.length < b.tags.length ∨
-      (a.tags.length = b.tags.length ∧ tl a.tags a.skey b.tags b.skey = true)))) := by
-  simp only [less]
-  by_cases ht : a.time = b.time
-  · by_cases hl : a.tags.length = b.tags.length
-    · simp [ht, hl, tl]
-      cases tagsLess a.tags b.tags <;> rfl
-    · simp [ht, hl]
-  · simp [ht]
-
-theorem less_asymm (a b : RowRepr) (h : less a b = true) : ¬ less b a = true := by
-  simp only [less_iff] at *
-  rcases h with h | ⟨h1, h | ⟨h2, h3⟩⟩
-  · rintro (g | ⟨g1, _⟩) <;> omega
-  · rintro (g | ⟨_, g | ⟨g2, _⟩⟩) <;> omega
-  · rintro (g | ⟨_, g | ⟨_, g3⟩⟩)
-    · omega
-    · omega
-    · exact tl_asymm _ _ _ _ h2 h3 g3
-
-theorem less_negtrans (a b c : RowRepr) (h : less a c = true) : less a b = true ∨ less b c = true := by
-  simp only [less_iff] at *
-  by_cases t1 : a.time < b.time
-  · exact Or.inl (Or.inl t1)
-  by_cases t2 : b.time < c.time
-  · exact Or.inr (Or.inl t2)
-  rcases h with h | ⟨h1, h⟩
-  · omega
-  have e1 : a.time = b.time := by omega
-  have e2 : b.time = c.time := by omega
-  by_cases l1 : a.tags.length < b.tags.length
-  · exact Or.inl (Or.inr ⟨e1, Or.inl l1⟩)
-  by_cases l2 : b.tags.length < c.tags.length
-  · exact Or.inr (Or.inr ⟨e2, Or.inl l2⟩)
-  rcases h with h | ⟨h2, h3⟩
-  · omega
-  have f1 : a.tags.length = b.tags.length := by omega
-  have f2 : b.tags.length = c.tags.length := by omega
-  rcases tl_negtrans _ _ _ a.skey b.skey c.skey f1 f2 h3 with g | g
-  · exact Or.inl (Or.inr ⟨e1, Or.inr ⟨f1, g⟩⟩)
-  · exact Or.inr (Or.inr ⟨e2, Or.inr ⟨f2, g⟩⟩)
-
-/-! ## column alignment -/
-
-/-- ghost: the storage rows that one pass of the LOD loop hands to the row loop body, in order -/
-def passRows (v : Variant) (q : Req) : List (Lod × Option (List (List Row))) → Nat → List Row
-  | [], _ => []
-  | (l, ans) :: rest, cnt =>
-    if lodSkipped q l then passRows v q rest cnt
-    else match ans with
-      | none => []
-      | some groups =>
-        let lq := limitQueries v q.win groups (q.limit - cnt)
-        let rows := lq.1.filter (fun r => !timeSkipped q r)
-        if lq.2 then rows else rows ++ passRows v q rest (cnt + rows.length)
-
-theorem lodLoop_eq_fold (v : Variant) (q : Req) (pad : Nat) (cols : List Nat) :
-    ∀ (answers : List (Lod × Option (List (List Row)))) (cnt : Nat) (out : List ORow) (res : List ORow × Bool),
-      lodLoop v q pad cols answers cnt out = some res →
-      res.1 = (passRows v q answers cnt).foldl (addRow pad cols) out := by
-  intro answers
-  induction answers with
-  | nil => intro cnt out res he; simp [lodLoop] at he; subst he; simp [passRows]
-  | cons a rest ih =>
-    intro cnt out res he
-    obtain ⟨l, ans⟩ := a
-    simp only [lodLoop] at he
-    simp only [passRows]
-    split at he
-    · rename_i hs; simp only [hs, if_true]; exact ih _ _ _ he
-    · rename_i hs
-      simp only [hs]
-      cases ans with
-      | none => simp at he
-      | some groups =>
-        simp only at he ⊢
-        split at he
-        · rename_i hm; simp at he; subst he; simp [hm]
-        · rename_i hm
-          simp only [hm]
-          rw [ih _ _ _ he]
-          simp [List.foldl_append]
-
-/-- alignment invariant inside a pass: `n` columns before this handler-what, `c` columns of this one -/
-def J (n c : Nat) (seen : List Key) (out : List ORow) : Prop :=
-  ∀ o ∈ out, (o.used = true → o.key ∈ seen) ∧ o.data.length = n + (if o.used then c else 0)
-
-theorem J_addRow (n : Nat) (cols : List Nat) (seen : List Key) (out : List ORow) (r : Row)
-    (h : J n cols.length seen out) (hr : r.key ∉ seen) : J n cols.length (r.key :: seen) (addRow n cols out r) := by
-  unfold addRow
-  split
-  · intro o' ho'
-    simp only [List.mem_map] at ho'
-    obtain ⟨o, ho, rfl⟩ := ho'
-    have := h o ho
-    by_cases hk : (o.key == r.key) = true
-    · have hk' : o.key = r.key := by simpa using hk
-      have hu : o.used = false := by
-        cases hu : o.used with
-        | false => rfl
-        | true => exact absurd (hk' ▸ this.1 hu) hr
-      simp [hk', rowVals, this.2, hu]
-    · simp only [hk]
-      refine ⟨fun hu => List.mem_cons_of_mem _ (this.1 hu), this.2⟩
-  · intro o ho
-    simp only [List.mem_append, List.mem_singleton] at ho
-    rcases ho with ho | rfl
-    · have := h o ho
-      exact ⟨fun hu => List.mem_cons_of_mem _ (this.1 hu), this.2⟩
-    · simp [rowVals]
-
-theorem J_fold (n : Nat) (cols : List Nat) : ∀ (rows : List Row) (seen : List Key) (out : List ORow),
-    J n cols.length seen out → (rows.map (·.key)).Nodup → (∀ r ∈ rows, r.key ∉ seen) →
-    ∃ seen', J n cols.length seen' (rows.foldl (addRow n cols) out) := by
-  intro rows
-  induction rows with
-  | nil => intro seen out h _ _; exact ⟨seen, by simpa using h⟩
-  | cons r rs ih =>
-    intro seen out h hnd hdis
-    simp only [List.map_cons, List.nodup_cons] at hnd
-    simp only [List.foldl_cons]
-    apply ih (r.key :: seen) _ (J_addRow n cols seen out r h (hdis r (by simp))) hnd.2
-    intro x hx
-    simp only [List.mem_cons, not_or]
-    refine ⟨?_, hdis x (by simp [hx])⟩
-    intro e
-    exact hnd.1 (by simp only [List.mem_map]; exact ⟨x, hx, e⟩)
-
-/-- all rows have `n` columns and nobody is marked used (state between two passes) -/
-def Aligned (n : Nat) (out : List ORow) : Prop := ∀ o ∈ out, o.used = false ∧ o.data.length = n
-
-theorem endPass_aligned (n : Nat) (cols : List Nat) (seen : List Key) (out : List ORow)
-    (h : J n cols.length seen out) : Aligned (n + cols.length) (endPass .fixed cols out) := by
-  intro o' ho'
-  simp only [endPass, List.mem_map] at ho'
-  obtain ⟨o, ho, rfl⟩ := ho'
-  have := (h o ho).2
-  cases hu : o.used <;> simp [hu, padMissing] at this ⊢ <;> omega
-
-theorem sum_append_single (prev : List (List Nat)) (cols : List Nat) :
-    ((prev ++ [cols]).map List.length).sum = (prev.map List.length).sum + cols.length := by
-  simp
-
-/-- no key is handed to the row loop twice within one pass -/
-def NoRepeat (v : Variant) (q : Req) (todo : List (List Nat × List (Lod × Option (List (List Row))))) : Prop :=
-  ∀ t ∈ todo, ((passRows v q t.2 0).map (·.key)).Nodup
-
-theorem whatLoop_aligned (q : Req) :
-    ∀ (todo : List (List Nat × List (Lod × Option (List (List Row))))) (prev : List (List Nat)) (out : List ORow) (more : Bool)
-      (res : List ORow × Bool), NoRepeat .fixed q todo → Aligned (prev.map List.length).sum out →
-      whatLoop .fixed q prev todo out more = some res →
-      Aligned ((prev ++ todo.map (·.1)).map List.length).sum res.1 := by
-  intro todo
-  induction todo with
-  | nil => intro prev out more res _ h he; simp [whatLoop] at he; subst he; simpa using h
-  | cons t rest ih =>
-    intro prev out more res hn h he
-    obtain ⟨cols, answers⟩ := t
-    simp only [whatLoop] at he
-    split at he
-    · simp at he
-    · rename_i r hr
-      have hfold := lodLoop_eq_fold .fixed q _ cols answers 0 out r hr
-      have hJ0 : J (prev.map List.length).sum cols.length [] out := by
-        intro o ho
-        have := h o ho
-        simp [this.1, this.2]
-      obtain ⟨seen', hJ⟩ := J_fold (prev.map List.length).sum cols (passRows .fixed q answers 0) [] out hJ0
-        (hn (cols, answers) (by simp)) (by simp)
-      have hal := endPass_aligned _ cols seen' _ hJ
-      rw [← sum_append_single] at hal
-      have := ih (prev ++ [cols]) _ _ res (fun t ht => hn t (by simp [ht])) (by
-        simp only [padBefore] at hfold
-        rw [hfold]; exact hal) he
-      simpa [List.append_assoc] using this
-
-/-! ## the page across the LOD split -/
-
-/-- the window rows of all LODs that are not skipped, in visiting order (an error answer contributes nothing) -/
-def candRows (q : Req) : List (Lod × Option (List (List Row))) → List Row
-  | [] => []
-  | (l, ans) :: rest =>
-    if lodSkipped q l then candRows q rest
-    else windowRows q.win (ans.getD []) ++ candRows q rest
-
-theorem filter_take_all {α} (p : α → Bool) (l : List α) (n : Nat) (h : ∀ x ∈ l, p x = true) :
-    (l.take n).filter p = l.take n := by
-  apply List.filter_eq_self.2
-  intro x hx
-  exact h x (List.mem_of_mem_take hx)
-
-theorem lodLoop_page (q : Req) (pad : Nat) (cols : List Nat) :
-    ∀ (answers : List (Lod × Option (List (List Row)))) (cnt : Nat) (out : List ORow) (res : List ORow × Bool),
-      (∀ r ∈ candRows q answers, timeSkipped q r = false) →
-      lodLoop .fixed q pad cols answers cnt out = some res →
-      res.1 = ((candRows q answers).take (q.limit - cnt).toNat).foldl (addRow pad cols) out ∧
-      res.2 = decide ((q.limit - cnt).toNat < (candRows q answers).length) := by
-  intro answers
-  induction answers with
-  | nil => intro cnt out res _ he; simp [lodLoop] at he; subst he; simp [candRows]
-  | cons a rest ih =>
-    intro cnt out res hts he
-    obtain ⟨l, ans⟩ := a
-    simp only [lodLoop] at he
-    simp only [candRows] at hts ⊢
-    split at he
-    · rename_i hs; simp only [hs, if_true] at hts ⊢; exact ih _ _ _ hts he
-    · rename_i hs
-      simp only [hs, Bool.false_eq_true, if_false] at hts ⊢
-      cases ans with
-      | none => simp at he
-      | some groups =>
-        simp only [limitQueries_fixed, Option.getD_some] at he hts ⊢
-        have hw : ∀ x ∈ windowRows q.win groups, (!timeSkipped q x) = true := by
-          intro x hx; simp [hts x (by simp [hx])]
-        rw [filter_take_all _ _ _ hw] at he
-        by_cases hm : (q.limit - ↑cnt).toNat < (windowRows q.win groups).length
-        · simp only [hm, decide_true, if_true] at he
-          simp only [Option.some.injEq] at he; subst he
-          simp only [List.length_append]
-          refine ⟨?_, ?_⟩
-          · rw [List.take_append_of_le_length (Nat.le_of_lt hm)]
-          · simp; omega
-        · simp only [hm, decide_false] at he
-          have hle : (windowRows q.win groups).length ≤ (q.limit - ↑cnt).toNat := Nat.le_of_not_lt hm
-          have hrest := ih _ _ _ (fun r hr => hts r (by simp [hr])) he
-          rw [List.take_of_length_le hle] at hrest
-          have hn : (q.limit - ↑(cnt + (windowRows q.win groups).length)).toNat
-              = (q.limit - ↑cnt).toNat - (windowRows q.win groups).length := by
-            omega
-          rw [hn] at hrest
-          refine ⟨?_, ?_⟩
-          · rw [hrest.1, List.take_append, List.take_of_length_le hle, List.foldl_append]
-          · rw [hrest.2]; simp only [List.length_append]
-            by_cases hx : (q.limit - ↑cnt).toNat - (windowRows q.win groups).length < (candRows q rest).length
-            · simp; omega
-            · simp; omega
-
-theorem candRows_inRange (q : Req) : ∀ (answers : List (Lod × Option (List (List Row)))) (r : Row),
-    r ∈ candRows q answers → inRange q.win r = true := by
-  intro answers
-  induction answers with
-  | nil => intro r h; simp [candRows] at h
-  | cons a rest ih =>
-    intro r h
-    obtain ⟨l, ans⟩ := a
-    simp only [candRows] at h
-    split at h
-    · exact ih r h
-    · simp only [List.mem_append] at h
-      rcases h with h | h
-      · simp only [windowRows, List.mem_filter] at h; exact h.2
-      · exact ih r h
-
-/-! ## duplicate-free storage answers -/
-
-/-- all rows of the storage answers of one requested function (errors contribute nothing) -/
-def storedRows : List (Lod × Option (List (List Row))) → List Row
-  | [] => []
-  | (_, ans) :: rest => (ans.getD []).flatten ++ storedRows rest
-
-def storedRowsDir (fe : Bool) : List (Lod × Option (List (List Row))) → List Row
-  | [] => []
-  | (_, ans) :: rest => (dir fe (ans.getD [])).flatten ++ storedRowsDir fe rest
-
-theorem storedRowsDir_perm (fe : Bool) : ∀ answers, (storedRowsDir fe answers).Perm (storedRows answers) := by
-  intro answers
-  induction answers with
-  | nil => simp [storedRowsDir, storedRows]
-  | cons a rest ih =>
-    obtain ⟨l, ans⟩ := a
-    simp only [storedRowsDir, storedRows]
-    refine List.Perm.append ?_ ih
-    unfold dir
-    split
-    · exact (List.reverse_perm _).flatten
-    · exact List.Perm.refl _
-
-theorem passRows_sublist (q : Req) : ∀ (answers : List (Lod × Option (List (List Row)))) (cnt : Nat),
-    (passRows .fixed q answers cnt).Sublist (storedRowsDir q.win.fromEnd answers) := by
-  intro answers
-  induction answers with
-  | nil => intro cnt; simp [passRows, storedRowsDir]
-  | cons a rest ih =>
-    intro cnt
-    obtain ⟨l, ans⟩ := a
-    simp only [passRows, storedRowsDir]
-    split
-    · exact (ih cnt).trans (List.sublist_append_right _ _)
-    · cases ans with
-      | none => simp
-      | some groups =>
-        simp only [limitQueries_fixed, Option.getD_some]
-        have hrows : (List.filter (fun r => !timeSkipped q r)
-            (List.take (q.limit - ↑cnt).toNat (windowRows q.win groups))).Sublist (dir q.win.fromEnd groups).flatten :=
-          List.filter_sublist.trans ((List.take_sublist _ _).trans List.filter_sublist)
-        split
-        · exact hrows.trans (List.sublist_append_left _ _)
-        · exact List.Sublist.append hrows (ih _)
-
-/-- storage answers without duplicate keys (per requested function, over all its LODs) never hand a key to the
-    row loop twice -/
-theorem noRepeat_of_nodup (q : Req) (todo : List (List Nat × List (Lod × Option (List (List Row)))))
-    (h : ∀ t ∈ todo, ((storedRows t.2).map (·.key)).Nodup) : NoRepeat .fixed q todo := by
-  intro t ht
-  have h1 := ((storedRowsDir_perm q.win.fromEnd t.2).map (fun r : Row => r.key)).nodup_iff.2 (h t ht)
-  exact List.Nodup.sublist ((passRows_sublist q t.2 0).map _) h1
 
 /-! ## headline theorems on getTableFromLODs -/
 
@@ -964,5 +333,119 @@ example : (getTable .old reqPage lodsPage [[some [[rowT 10 1, rowT 10 2]], some 
 example : (getTable .fixed reqPage lodsPage [[some [[rowT 10 1, rowT 10 2]], some [[], []]]]).map (·.2) = some false := by decide
 /-- non-vacuity of `table_page` -/
 example : ∀ t ∈ todoOf reqPage lodsPage storePage, ∀ r ∈ candRows reqPage t.2, 0 ≤ r.key.time := by decide
+
+/-! ## the content of the cells: storage values, NaN exactly where a function has no row for the key -/
+
+/-- **cell_content.** For every LOD split, storage output, markers, direction and limit (storage answers of one
+    handler-what without duplicate keys): the data of every table row is, handler-what by handler-what in request
+    order, `cellBlock`: the value fields (one per column of that handler-what) of the storage row with the table row's
+    key that the pass of that handler-what handed to the row loop — whichever LOD produced it —, and one NaN per
+    column if that pass handed over no row with that key. `cellBlock_value` / `cellBlock_nan_iff` spell the two cases
+    out; `cell_content_page` identifies the rows handed over with the page of the function. -/
+theorem cell_content (q : Req) (lods : List Lod) (store : List (List (Option (List (List Row)))))
+    (rows : List ORow) (more : Bool)
+    (hnd : ∀ t ∈ todoOf q lods store, ((storedRows t.2).map (·.key)).Nodup)
+    (h : getTable .fixed q lods store = some (rows, more)) :
+    ∀ o ∈ rows, o.data = (todoOf q lods store).flatMap (fun t => cellBlock t.1 (passRows .fixed q t.2 0) o.key) := by
+  have hn := noRepeat_of_nodup q _ hnd
+  obtain ⟨r, hr, rfl, _⟩ := getTable_some .fixed q lods store rows more h
+  have := whatLoop_filled q (todoOf q lods store) [] [] false r hn (by simp [Filled, keysOf]) (by simpa using hr)
+  intro o ho
+  have := (this.1 o ((sortRows_perm q r.1).mem_iff.1 ho)).2
+  simpa [cellsOf] using this
+
+/-- **cell_content (pages).** Without storage errors and with row times ≥ 0: a cell block of the table row with key `k`
+    shows the storage values of the row with key `k` on the page of that function (the first `limit` rows of its
+    window over the visited LODs), and is NaN in every column iff that page holds no row with key `k` — i.e. iff the
+    storage returned no row for that key and function inside the requested window and limit. -/
+theorem cell_content_page (q : Req) (lods : List Lod) (store : List (List (Option (List (List Row)))))
+    (rows : List ORow) (more : Bool)
+    (hnd : ∀ t ∈ todoOf q lods store, ((storedRows t.2).map (·.key)).Nodup)
+    (hne : ∀ t ∈ todoOf q lods store, ∀ a ∈ t.2, a.2 ≠ none)
+    (hpos : ∀ t ∈ todoOf q lods store, ∀ r ∈ candRows q t.2, 0 ≤ r.key.time)
+    (h : getTable .fixed q lods store = some (rows, more)) :
+    ∀ o ∈ rows, o.data = (todoOf q lods store).flatMap (fun t => cellBlock t.1 (pageRows q t.2) o.key) := by
+  intro o ho
+  rw [cell_content q lods store rows more hnd h o ho]
+  simp only [List.flatMap_def]
+  congr 1
+  apply List.map_congr_left
+  intro t ht
+  have hts : ∀ x ∈ candRows q t.2, timeSkipped q x = false := fun x hx =>
+    inRange_not_timeSkipped q x (candRows_inRange q t.2 x hx) (hpos t ht x hx)
+  rw [passRows_page q t.2 0 (hne t ht) hts]
+  simp [pageRows]
+
+/-- non-vacuity of `cell_content` / `cell_content_page` (the request of `one_column_per_function`'s example) and the
+    two cases of a cell on it: values of the key's row, NaN for the function that has no row for the key -/
+example : (∀ t ∈ todoOf reqPad [⟨10, 11⟩] storePad, ((storedRows t.2).map (·.key)).Nodup) ∧
+    (∀ t ∈ todoOf reqPad [⟨10, 11⟩] storePad, ∀ a ∈ t.2, a.2 ≠ none) ∧
+    (∀ t ∈ todoOf reqPad [⟨10, 11⟩] storePad, ∀ r ∈ candRows reqPad t.2, 0 ≤ r.key.time) := by decide
+example : (todoOf reqPad [⟨10, 11⟩] storePad).map (fun t => cellBlock t.1 (pageRows reqPad t.2) ⟨10, [1], 0⟩) =
+    [[some 5, some 6], [none]] := by decide
+
+/-! ## handleGetTable: the LOD order handed to getTableFromLODs -/
+
+/-- the fixed handleGetTable passes the ascending LOD list on unchanged: every theorem above about `getTable` is a
+    theorem about `handleGetTable .keeps`; for `fromEnd` the LODs are then visited from the newest one
+    (`todoOf … = … dir true (lods.zip answers)`), for ascending requests from the oldest -/
+theorem handleGetTable_keeps (v : Variant) (q : Req) (lods : List Lod) (store : List (List (Option (List (List Row))))) :
+    handleGetTable .keeps v q lods store = getTable v q lods store := by
+  have : store.map (callerOrder .keeps q.win.fromEnd) = store := by
+    have hid : (callerOrder .keeps q.win.fromEnd : List (Option (List (List Row))) → _) = id := by
+      funext l; rfl
+    rw [hid, List.map_id]
+  simp only [handleGetTable, this]
+  rfl
+
+/-- the code before the fix reversed the list only to have it reversed again: a descending request got the visiting
+    order of an ascending one -/
+theorem handleGetTable_reverses_visits_ascending (q : Req) (lods : List Lod)
+    (store : List (List (Option (List (List Row))))) (hfe : q.win.fromEnd = true)
+    (hlen : ∀ s ∈ store, s.length = lods.length) :
+    (todoOf q (callerOrder .reversesFromEnd true lods) (store.map (callerOrder .reversesFromEnd true))).map (·.2) =
+      (q.cols.zip store).map (fun p => lods.zip p.2) := by
+  simp only [todoOf, callerOrder, if_true, hfe, dir, List.map_map]
+  rw [List.zip_map_right]
+  simp only [List.map_map]
+  apply List.map_congr_left
+  intro p hp
+  have hl := hlen p.2 (List.of_mem_zip hp).2
+  simp only [Function.comp, Prod.map]
+  have hc : callerOrder .reversesFromEnd true p.2 = p.2.reverse := by simp [callerOrder]
+  rw [hc]
+  simp only [List.zip]
+  rw [← List.reverse_zipWith (by simp [hl])]
+  simp
+
+/-- descending request, limit 1, two LODs with one row each -/
+def reqDesc : Req := { win := { wAll with fromEnd := true }, limit := 1, gby := [], bySkey := false, cols := [[0]] }
+def storeDesc : List (List (Option (List (List Row)))) := [[some [[⟨⟨10, [], 0⟩, [1]⟩]], some [[⟨⟨11, [], 0⟩, [1]⟩]]]]
+
+/-- old handleGetTable: the page of the descending request is the row of the OLDEST LOD -/
+example : (handleGetTable .reversesFromEnd .fixed reqDesc [⟨10, 11⟩, ⟨11, 12⟩] storeDesc).map
+    (fun r => (r.1.map (fun o => o.key.time), r.2)) = some ([10], true) := by decide
+/-- fixed: the newest row -/
+example : (handleGetTable .keeps .fixed reqDesc [⟨10, 11⟩, ⟨11, 12⟩] storeDesc).map
+    (fun r => (r.1.map (fun o => o.key.time), r.2)) = some ([11], true) := by decide
+/-- non-vacuity of `handleGetTable_reverses_visits_ascending` -/
+example : reqDesc.win.fromEnd = true ∧ ∀ s ∈ storeDesc, s.length = [(⟨10, 11⟩ : Lod), ⟨11, 12⟩].length := by decide
+
+/-! ## old code (before 8d8821bd): the shared backing array of rowRepr.Tags -/
+
+/-- two handler-whats; the first answer holds the rows with tag 1 and 3, the second answer only a row with tag 2 -/
+def reqAlias : Req := { win := wAll, limit := 10, gby := [0], bySkey := false, cols := [[0], [1]] }
+def storeAlias : List (List (Option (List (List Row)))) :=
+  [[some [[rowT 10 1, rowT 10 3]]], [some [[rowT 10 2]]]]
+
+/-- markers in output order: both rows created from the first answer carry the tags of its last row (3), so the
+    row with tag 1 no longer knows its own tag … -/
+example : (getTableAliased reqAlias [⟨10, 11⟩] storeAlias).map (fun l => l.map (·.2)) = some [[2], [3], [3]] := by decide
+/-- … and the final sort, which compares these markers, puts the row with tag 2 in front of the row with tag 1 -/
+example : (getTableAliased reqAlias [⟨10, 11⟩] storeAlias).map (fun l => (l.map (·.1.tags)).head?) = some (some [2]) := by decide
+example : (getTableAliased reqAlias [⟨10, 11⟩] storeAlias).map (fun l => l.any (fun p => p.1.tags == [1])) = some true := by decide
+/-- the fixed code on the same input: sorted, and (by `reprOf`) every row's marker is made of its own tags -/
+example : (getTable .fixed reqAlias [⟨10, 11⟩] storeAlias).map (fun r => r.1.map (fun o => o.key.tags)) =
+    some [[1], [2], [3]] := by decide
 
 end SH.C25
